@@ -92,7 +92,7 @@ theorem c01Check_runTransfer (cfg : Cfg) (hw : WrapOK cfg.wrap) (rrq : Rrq) (con
     rw [idealBlocks, transferBlocks_eq_split]
   obtain ⟨m, h1, h2, h3⟩ := processRequest_data (envOf cfg rrq h) hw (negOf cfg rrq h).oack
     (transferBlocks rrq.netascii (negOf cfg rrq h).blockSize content caps) script
-  obtain ⟨P', hP, hPend⟩ := C02.c02Check_processRequest (envOf cfg rrq h) hw (negOf cfg rrq h).oack
+  obtain ⟨P', hP, hPend, hPquiet⟩ := C02.c02Check_processRequest (envOf cfg rrq h) hw (negOf cfg rrq h).oack
     ((transferBlocks rrq.netascii (negOf cfg rrq h).blockSize content caps).map some) script
   generalize processRequest (envOf cfg rrq h) (negOf cfg rrq h).oack
     ((transferBlocks rrq.netascii (negOf cfg rrq h).blockSize content caps).map some) 0 script = pr at *
@@ -108,12 +108,31 @@ theorem c01Check_runTransfer (cfg : Cfg) (hw : WrapOK cfg.wrap) (rrq : Rrq) (con
     exact h1
   rw [hdatas, take_isPrefixOf, Bool.true_and]
   have herr : isFlow err0 = false := isFlow_errorPacket _ _
+  have hP2 : runSteps (c02Step (negOf cfg rrq h).timeout cfg.maxRetries) .idle pr.obs = some P' := hP
+  -- the transfer is never abandoned with the retry budget of the outstanding packet unused
+  have hfinal : noPrematureGiveUp (negOf cfg rrq h).timeout cfg.maxRetries (runTransfer cfg rrq h script) = true := by
+    unfold noPrematureGiveUp
+    rw [hrun, runSteps_append, hP2, Option.bind_some]
+    cases hout : pr.out with
+    | completed =>
+      rcases hPquiet (Or.inl hout) with hq | ⟨c, hq, hack⟩
+      · subst hq; simp [finish, runSteps, c02Step, finalOK]
+      · subst hq; simp [finish, runSteps, c02Step, finalOK, hack]
+    | overflow =>
+      rcases hPquiet (Or.inr (Or.inl hout)) with hq | ⟨c, hq, _⟩ <;> subst hq <;>
+        simp [finish, runSteps, c02Step, finalOK, herr]
+    | readFault =>
+      rcases hPquiet (Or.inr (Or.inr hout)) with hq | ⟨c, hq, _⟩ <;> subst hq <;>
+        simp [finish, runSteps, c02Step, finalOK, herr]
+    | gaveUp => rw [hPend (Or.inl hout)]; simp [finish, runSteps, c02Step, finalOK]
+    | invalid => rw [hPend (Or.inr (Or.inl hout))]; simp [finish, runSteps, c02Step, finalOK, herr]
+    | peerError => rw [hPend (Or.inr (Or.inr hout))]; simp [finish, runSteps, c02Step, finalOK]
+  rw [hfinal, Bool.and_true]
   have hended : (pr.out = .gaveUp ∨ pr.out = .invalid ∨ pr.out = .peerError) →
       sawAbort (negOf cfg rrq h).timeout cfg.maxRetries (runTransfer cfg rrq h script) = true := by
     intro hc
     have hP' := hPend hc
     subst hP'
-    have hP2 : runSteps (c02Step (negOf cfg rrq h).timeout cfg.maxRetries) .idle pr.obs = some .ended := hP
     unfold sawAbort
     rw [hrun, runSteps_append, hP2, Option.bind_some]
     rcases hc with hc | hc | hc <;> simp [hc, finish, runSteps, c02Step, herr]
@@ -137,7 +156,7 @@ theorem complete_unless_aborted (cfg : Cfg) (hw : WrapOK cfg.wrap) (rrq : Rrq) (
   have h := c01Check_runTransfer cfg hw rrq content caps sizeKnown script
   unfold c01Check at h
   simp only [hna, Bool.false_or, Bool.and_eq_true, beq_iff_eq] at h
-  exact h.2
+  exact h.1.2
 
 /-! ### block numbering -/
 
